@@ -12,7 +12,8 @@ LEVEL = "proof"
 EXPLANATION = (
     "Lean list model of apply_transform / _order_backends / cached call. Theorems over the whole (finite) family of "
     "chains: final backend order = [unit?, quant?, last?], both orders commute, each transform once, repeat-stable, "
-    "intermediate calls irrelevant. The check runs the real transforms through TorchDynamo on small modules: backend "
+    "intermediate calls irrelevant; for action sequences of any length, interleaved calls never change the backend list. "
+    "The check runs the real transforms through TorchDynamo on small modules: backend "
     "kinds and re-run flag after every action vs the model (correspondence); original module untouched (parameters, "
     "outputs, gradients, no shared storage), repeated calls equal, unit_scale∘simulate = simulate∘unit_scale on outputs "
     "and gradients, every backend logged exactly once (oracle)."
